@@ -145,6 +145,8 @@ pub struct FaultForm {
 
 /// contexts used by C08 only: the faulting operation sits in a procedure defined by an earlier top-level form
 pub const CONTEXTS_C08: [&str; 6] = ["direct", "non-tail", "tail", "apply", "library", "deferred"];
+/// judged by C08 only (C15 gives `deferred` a treatment of its own)
+pub const CONTEXTS_C08_ONLY: [&str; 1] = ["loop"];
 
 /// the faulting top-level form: effects before, the fault in its context, effects that must not happen
 pub fn fault_form(ch: &mut Chooser, kind: &'static str, context: &'static str) -> FaultForm {
@@ -179,6 +181,32 @@ pub fn fault_form_with(ch: &mut Chooser, kind: &'static str, context: &'static s
                 2 => Expr::Apply(Box::new(var("later-fault")), vec![], Box::new(Expr::Quote(Datum::List(vec![Datum::Int(1)], None)))),
                 _ => app("map", vec![var("later-fault"), Expr::Quote(Datum::List(vec![Datum::Int(1), Datum::Int(2)], None))]),
             }
+        }
+        "loop" => {
+            // the fault happens in a later iteration of a self tail-calling loop defined by an earlier form (the calls before
+            // it succeeded); an arity fault may be the loop's own tail call with one argument too many / too few
+            let self_call = kind == "arity" && ch.chance(1, 2);
+            let faulty = if self_call {
+                match ch.below(3) {
+                    0 => app("fault-loop", vec![Expr::Int(0), Expr::Int(0), Expr::Int(99)]),
+                    1 => app("fault-loop", vec![Expr::Int(0)]),
+                    _ => app("fault-loop", vec![]),
+                }
+            } else {
+                bury(ch, direct(&call), true, derived)
+            };
+            let again = app("fault-loop", vec![app("-", vec![var("fl-i"), Expr::Int(1)]), app("+", vec![var("fl-acc"), Expr::Int(1)])]);
+            let body = Expr::If(
+                Box::new(app("=", vec![var("fl-i"), Expr::Int(1)])),
+                Box::new(faulty),
+                Some(Box::new(Expr::If(Box::new(app("=", vec![var("fl-i"), Expr::Int(0)])), Box::new(var("fl-acc")), Some(Box::new(again))))),
+            );
+            pre = Some(Form::Define(Def {
+                name: "fault-loop".into(),
+                value: Expr::Lambda(Formals { fixed: vec!["fl-i".into(), "fl-acc".into()], rest: None }, body1(body)),
+                sugar: true,
+            }));
+            app("fault-loop", vec![Expr::Int(1 + ch.below(5) as i32), Expr::Int(0)])
         }
         "direct" => bury(ch, direct(&call), false, derived),
         "non-tail" => {
